@@ -2,9 +2,9 @@ package main
 
 import (
 	"fmt"
-	"net"
 	"go/token"
 	"go/types"
+	"net"
 	"strings"
 
 	"golang.org/x/tools/go/ssa"
@@ -301,12 +301,12 @@ func c15R1(h H) {
 				bad = describeAval(addr) + ": IsLoopback = false " + und
 			}
 		}
-		for _, addr := range []aval{name(L("site"), lit(".com")), name(L("localhost"), lit(".com")), astr("128.0.0.1"), astr("[::2]:80")} {
+		for _, addr := range []aval{name(L("site"), lit(".com")), name(L("localhost"), lit(".com")), astr("128.0.0.1"), astr("[::2]:80"), astr("127.example.com"), astr("127.0.0.1.nip.io:443"), astr("127.shop")} {
 			if got, und := evalPred(lb, addr); und != "" || got {
 				bad = describeAval(addr) + ": IsLoopback = true " + und
 			}
 		}
-		r.Check(bad == "", "R1", "casket.IsLoopback/names", lb.Pos(), "localhost, *.localhost, 127.* and ::1, with or without port, count as loopback; other names and addresses do not (site hosts reach this predicate lower-cased)", bad)
+		r.Check(bad == "", "R1", "casket.IsLoopback/names", lb.Pos(), "localhost, *.localhost, the addresses 127.* and ::1, with or without port, count as loopback; other names — also public DNS names that merely begin with 127. — and other addresses do not (site hosts reach this predicate lower-cased)", bad)
 	}
 }
 
